@@ -21,7 +21,7 @@ func init() {
 	fw.Register(&fw.Check{
 		ID:    "C19",
 		Level: "fault_enumeration",
-		Rule: "case = (scenario, fault kind); scenarios: count vectors (1,1,1,1,1) and (2,2,2,2,2) in quick, plus (3,3,3,3,3), (3,1,0,2,3), (2,2,0,0,2) and two further AMF-choice variations in thorough; fault kinds: close (instead of message k), close-after (right after sending message k, for every k < M after which the emulator still has to write) + 14 garbage variants (an undecodable answer that arrives 17 s late - after a UE's 15 / 16 s guard timers; the header of a DOWNLINK NAS TRANSPORT / of another message an AMF may send unsolicited, then noise; the first half of the message under the header of another procedure, one octet, 32 random octets, first half, truncated by one, wrong PDU alternative, length beyond the data, zeros, 2047 / 2048 / 8192 random octets). " +
+		Rule: "case = (scenario, fault kind); scenarios: count vectors (1,1,1,1,1) and (2,2,2,2,2) in quick, plus (3,3,3,3,3), (3,1,0,2,3), (2,2,0,0,2) and two further AMF-choice variations in thorough; fault kinds: close (instead of message k), abort (the association is ended with the request that message k would answer still UNREAD: the peer sees a reset, not end-of-file), close-after (right after sending message k, for every k < M after which the emulator still has to write) + 15 garbage variants (bytes laid out like an SCTP event notification; an undecodable answer that arrives 17 s late - after a UE's 15 / 16 s guard timers; the header of a DOWNLINK NAS TRANSPORT / of another message an AMF may send unsolicited, then noise; the first half of the message under the header of another procedure, one octet, 32 random octets, first half, truncated by one, wrong PDU alternative, length beyond the data, zeros, 2047 / 2048 / 8192 random octets). " +
 			"Each case runs the baseline under strace and then one emulator process per fault index k in [0,R) (exhaustive over k). Verdict per faulted run: exit status must be non-zero, no completion banner, not blocked: " +
 			"'blocked' = after the watchdog (nominal duration of the whole scenario + 20 s) two samples of /proc/<pid>/task/*/syscall three seconds apart both show recvmsg on the N2 descriptor while the AMF is quiescent. " +
 			"One extra case per kind drives EstablishPDU through the procedure driver with the fault on its own reply. distinct = hash(scenario, kind); non-trivial = at least 2 faulted runs",
@@ -43,7 +43,7 @@ func init() {
 	})
 }
 
-var c19Kinds = append([]string{"close", "close-after"}, refamf.GarbageKinds...)
+var c19Kinds = append([]string{"close", "close-after", "abort"}, refamf.GarbageKinds...)
 
 var c19Scenarios = [][5]int{{1, 1, 1, 1, 1}, {2, 2, 2, 2, 2}, {3, 3, 3, 3, 3}, {3, 1, 0, 2, 3}, {2, 2, 0, 0, 2}, {1, 1, 1, 1, 1}, {1, 1, 1, 1, 1}}
 
@@ -112,6 +112,19 @@ func runC19(c *fw.Case) (o fw.Outcome) {
 			}
 		}
 	}
+	// "abort": which uplink message triggers downlink message k (the one left unread when the association is reset)
+	trigger := make([]int, M)
+	{
+		ups, di := 0, 0
+		for _, e := range base.AMF.Events {
+			if e.Dir == "up" {
+				ups++
+			} else if e.Dir == "down" && di < M {
+				trigger[di] = ups - 1
+				di++
+			}
+		}
+	}
 	limit := R
 	if kind == "close-after" {
 		limit = M
@@ -132,7 +145,7 @@ func runC19(c *fw.Case) (o fw.Outcome) {
 			defer wg.Done()
 			sem <- struct{}{}
 			defer func() { <-sem }()
-			res := procdrv.Run(workDir(), emuPath(), procdrv.Spec{Cfg: cfg, Choices: mk(), Fault: refamf.Fault{At: k, Kind: kind}, Args: []string{"-t"}, Watchdog: nominal + 20*time.Second + refamf.LateBy(kind)})
+			res := procdrv.Run(workDir(), emuPath(), procdrv.Spec{Cfg: cfg, Choices: mk(), Fault: refamf.Fault{At: k, Kind: kind, AtUplink: trigger[k]}, Args: []string{"-t"}, Watchdog: nominal + 20*time.Second + refamf.LateBy(kind)})
 			where := fmt.Sprintf("fault %q at downlink message %d (%s) of scenario %v", kind, k, tags[k], v)
 			var vd *verdict
 			switch {
@@ -179,7 +192,7 @@ func c19Proc(c *fw.Case, kind string) (o fw.Outcome) {
 	r := c.R
 	cfg := genEmuConfig(r)
 	cfg.Reg, cfg.Pdu = 1, 1
-	sp := ProcSpec{Cfg: cfg, ChoiceSeed: r.Int63(), NUE: 1, Establish: true, FaultAt: 5, FaultKind: kind}
+	sp := ProcSpec{Cfg: cfg, ChoiceSeed: r.Int63(), NUE: 1, Establish: true, FaultAt: 5, FaultKind: kind, FaultAtUp: 6} // downlink 5 = the setup request, triggered by uplink 6 (the establishment request)
 	o.Tag("procedure-driver", "kind="+kind)
 	o.Input = fmt.Sprintf("procedure driver: fault %q on the PDUSessionResourceSetupRequest (downlink message 5) answering EstablishPDU", kind)
 	o.Digest = fw.HashS("c19proc", kind)
